@@ -389,4 +389,123 @@ theorem linkFold_resolves (f : Key × SymData → Key × SymData) (hf : ∀ e, (
       have := unique_addr st0.rel hUA e he0 (A, K) hA (by rw [← hre, hrA])
       rw [this] at he1; simp at he1
 
+/-! ### the merged label table, key by key -/
+
+/-- the entry a key gets when file A has `x` for it and file B has `y` -/
+def combineSym (x : Option SymData) (y : SymData) : SymData :=
+  match x with
+  | none => y
+  | some ad => if ad.ext && y.ext then ad else if ad.ext || y.ext then (if ad.ext then y else ad) else ad
+
+theorem lookupKey_setKey_self (m : List (Key × SymData)) (k : Key) (d d0 : SymData) (h : lookupKey m k = some d0) :
+    lookupKey (setKey m k d) k = some d := by
+  unfold lookupKey setKey at *
+  induction m with
+  | nil => simp at h
+  | cons e rest ih =>
+    simp only [List.map_cons, List.find?_cons] at h ⊢
+    by_cases he : (e.1 == k) = true
+    · simp [he]
+    · simp only [he, Bool.false_eq_true, if_false] at h ⊢
+      exact ih h
+
+theorem lookupKey_append_self (m : List (Key × SymData)) (k : Key) (d : SymData) (h : lookupKey m k = none) :
+    lookupKey (m ++ [(k, d)]) k = some d := by
+  unfold lookupKey at *
+  rw [List.find?_append]
+  cases hf : m.find? (fun e => e.1 == k) with
+  | some x => rw [hf] at h; simp at h
+  | none => simp [List.find?]
+
+/-- one step at its own key -/
+theorem linkLabel_self (st st' : LinkSt) (k : Key) (d : SymData) (h : linkLabel st (k, d) = .ok st') :
+    lookupKey st'.labels k = some (combineSym (lookupKey st.labels k) d) := by
+  unfold linkLabel at h
+  dsimp only at h
+  cases hl : lookupKey st.labels k with
+  | none =>
+    rw [hl] at h
+    cases h
+    exact lookupKey_append_self _ _ _ hl
+  | some ad =>
+    rw [hl] at h
+    dsimp only at h
+    unfold combineSym
+    by_cases h1 : (ad.ext && d.ext) = true
+    · simp only [h1, if_true] at h ⊢
+      cases h; exact hl
+    · simp only [h1, Bool.false_eq_true, if_false] at h ⊢
+      by_cases h2 : (ad.ext || d.ext) = true
+      · simp only [h2, if_true] at h ⊢
+        cases h
+        exact lookupKey_setKey_self _ _ _ _ hl
+      · simp only [h2, Bool.false_eq_true, if_false] at h ⊢
+        split at h
+        · cases h
+        · cases h; exact hl
+
+/-- two definitions of one label must agree on the address -/
+theorem linkLabel_defined_same (st st' : LinkSt) (k : Key) (d ad : SymData) (h : linkLabel st (k, d) = .ok st')
+    (hl : lookupKey st.labels k = some ad) (h1 : ad.ext = false) (h2 : d.ext = false) : ad.addr = d.addr := by
+  unfold linkLabel at h
+  dsimp only at h
+  rw [hl] at h
+  dsimp only at h
+  simp only [h1, h2, Bool.and_false, Bool.or_false, Bool.false_eq_true, if_false] at h
+  split at h
+  · cases h
+  · rename_i hne; simpa using hne
+
+/-- **the merged table, key by key**: after folding B's labels (keys unique in B) into A's table, a key that B does not have
+    keeps A's entry, and a key that B has gets the combination of A's entry and B's -/
+theorem linkFold_pointwise (f : Key × SymData → Key × SymData) (hf : ∀ e, (f e).1 = e.1) :
+    ∀ (l : List (Key × SymData)) (st st' : LinkSt), l.Pairwise (fun x y => (x.1 == y.1) = false) →
+    l.foldlM (fun s e => linkLabel s (f e)) st = .ok st' →
+    (∀ K, (∀ e ∈ l, (e.1 == K) = false) → lookupKey st'.labels K = lookupKey st.labels K) ∧
+    (∀ e ∈ l, lookupKey st'.labels e.1 = some (combineSym (lookupKey st.labels e.1) (f e).2)) ∧
+    (∀ e ∈ l, ∀ ad, lookupKey st.labels e.1 = some ad → ad.ext = false → (f e).2.ext = false → ad.addr = (f e).2.addr) := by
+  intro l
+  induction l with
+  | nil =>
+    intro st st' _ h
+    simp only [List.foldlM_nil] at h
+    cases h
+    exact ⟨fun _ _ => rfl, (fun e he => by cases he), (fun e he => by cases he)⟩
+  | cons x rest ih =>
+    intro st st' hu h
+    have hx := List.pairwise_cons.mp hu
+    rw [List.foldlM_cons] at h
+    cases hs : linkLabel st (f x) with
+    | error e => rw [hs] at h; cases h
+    | ok st1 =>
+      rw [hs] at h
+      have hfx : f x = (x.1, (f x).2) := Prod.ext (hf x) rfl
+      rw [hfx] at hs
+      obtain ⟨a1, _, _⟩ := linkLabel_effect st st1 x.1 (f x).2 hs
+      have aself := linkLabel_self st st1 x.1 (f x).2 hs
+      obtain ⟨b1, b2, b3⟩ := ih st1 st' hx.2 h
+      refine ⟨?_, ?_, ?_⟩
+      · intro K hK
+        rw [b1 K (fun e he => hK e (by simp [he])), a1 K (hK x (by simp))]
+      rotate_left
+      · intro e he ad had hae hfe
+        rcases List.mem_cons.mp he with rfl | he
+        · exact linkLabel_defined_same st st1 e.1 (f e).2 ad hs had hae hfe
+        · have hne : (x.1 == e.1) = false := hx.1 e he
+          exact b3 e he ad (by rw [a1 e.1 hne]; exact had) hae hfe
+      · intro e he
+        rcases List.mem_cons.mp he with rfl | he
+        · have hrest : ∀ y ∈ rest, (y.1 == e.1) = false := by
+            intro y hy
+            have h1 := hx.1 y hy
+            cases hc : (y.1 == e.1) with
+            | false => rfl
+            | true =>
+              have h2 : y.1 = e.1 := by simpa using hc
+              rw [h2] at h1
+              simp at h1
+          rw [b1 e.1 hrest, aself]
+        · have hne : (x.1 == e.1) = false := hx.1 e he
+          rw [b2 e he, a1 e.1 hne]
+
 end Lc3V
